@@ -5,7 +5,7 @@ use chrono::{DateTime, NaiveDateTime};
 
 // @ob tier=quick timeout=900 mem=14
 // @desc a zone accepted by the validator answers the offset-at-instant query for EVERY instant without panicking or overflowing (transition times and offsets over their whole admitted range, including i64::MIN/i64::MAX transition times)
-// @bounds zones with N <= 2 transitions (all i64 times), 2 types with any i32 offset the validator admits; all i64 instants
+// @bounds zones with N <= 2 transitions (all i64 times), 2 types with any i32 offset the validator admits, any usize type index per transition (the validator must reject indices out of bounds); all i64 instants
 // @funcs TimeZone::new/validate, LocalTimeType::new, TimeZoneRef::find_local_time_type, unix_time_to_unix_leap_time
 #[kani::proof]
 #[kani::unwind(4)]
@@ -13,8 +13,8 @@ fn c16_zone_offset_at_total() {
     let n: usize = kani::any();
     kani::assume(n <= 2);
     let types = [(kani::any::<i32>(), kani::any::<bool>()), (kani::any::<i32>(), kani::any::<bool>())];
+    // type indices are NOT restricted to valid ones: rejecting an index >= 2 is the validator's job
     let (k0, k1): (usize, usize) = (kani::any(), kani::any());
-    kani::assume(k0 < 2 && k1 < 2);
     let tr: [(i64, usize); 2] = [(kani::any(), k0), (kani::any(), k1)];
     if let Ok(z) = Zone::from_parts_n(n, tr, types) {
         let t: i64 = kani::any();
@@ -27,7 +27,7 @@ fn c16_zone_offset_at_total() {
 
 // @ob tier=quick timeout=900 mem=14
 // @desc a zone accepted by the validator answers the wall-clock query for EVERY representable wall-clock time without panicking or overflowing, also when a transition time lies within an offset of i64::MIN / i64::MAX (finding F15 on the original tree: `transition time + offset` overflowed)
-// @bounds zones with N <= 2 transitions (all i64 times), 2 types with any i32 offset the validator admits; all representable wall-clock times
+// @bounds zones with N <= 2 transitions (all i64 times), 2 types with any i32 offset the validator admits, any usize type index per transition (the validator must reject indices out of bounds); all representable wall-clock times
 // @funcs TimeZone::new/validate, LocalTimeType::new, TimeZoneRef::find_local_time_type_from_local
 #[kani::proof]
 #[kani::unwind(4)]
@@ -35,8 +35,8 @@ fn c16_zone_local_total() {
     let n: usize = kani::any();
     kani::assume(n <= 2);
     let types = [(kani::any::<i32>(), kani::any::<bool>()), (kani::any::<i32>(), kani::any::<bool>())];
+    // type indices are NOT restricted to valid ones: rejecting an index >= 2 is the validator's job
     let (k0, k1): (usize, usize) = (kani::any(), kani::any());
-    kani::assume(k0 < 2 && k1 < 2);
     let tr: [(i64, usize); 2] = [(kani::any(), k0), (kani::any(), k1)];
     if let Ok(z) = Zone::from_parts_n(n, tr, types) {
         let local = any_datetime();
